@@ -1,6 +1,7 @@
 package rules
 
 import (
+	"go/constant"
 	"fmt"
 	"go/token"
 	"go/types"
@@ -25,7 +26,7 @@ func init() {
 				"of every fallible step that precedes it in its function, and every such step's error is checked; addRuleList keeps " +
 				"the previous list on each error edge. R4: the index conversion skips invalid entries and keeps converting the rest.",
 			NotCovered: "behaviour of the HTTP client under each fault kind; atomicity of renameio itself (trusted); disk-full and fsync semantics.",
-			Rules: map[string]string{"C13-R16": "a consumer that can reject downloaded text does so before the text replaces the cache file (otherwise the rejected file is what the next start loads)", "C13-R15": "loadIndex (rule lists and blocked services): any load or decoding error rejects the whole index", "C13-R14": "builder wiring of the hash-prefix filters: own ID, cache file, storage and URL each (shared with C11-R11)", "C13-RC": "class rules (error chains, shadowed results, character classes, crossed arguments, pool constructors, array pools, loop completeness, loop-carried buffers, replacing setters, complete clones, Grow arithmetic, pooled-buffer escape, sorted searches, fresh decode targets, per-iteration objects, whole-message copies, codec guards) over the packages this property rests on", "C13-R13": "loadIndex only sorts the decoded entries; none is removed before validation", "C13-R12": "in-place list refresh: engine swap and cache clear under one write lock; same-typed arguments (acceptStale vs cache switches) are not crossed", "C13-R11": "the periodic refresh worker: the loop ends only on shutdown, refreshes on every uninterrupted tick, survives a failed refresh; shutdown refresh exactly when configured; constructor field map", "C13-R9": "an index key is converted to filter.ID only where the same field is validated by filter.NewID in the package", "C13-R10": "components with RefreshInitial are started through it in package cmd, never through their periodic Refresh", "C13-R1": "download / replace protocol tables", "C13-R2": "who may mutate files",
+			Rules: map[string]string{"C13-R17": "RefreshInitial accepts stale copies on disk (true), the periodic Refresh does not (false), for the storage and the hash-prefix filters", "C13-R16": "a consumer that can reject downloaded text does so before the text replaces the cache file (otherwise the rejected file is what the next start loads)", "C13-R15": "loadIndex (rule lists and blocked services): any load or decoding error rejects the whole index", "C13-R14": "builder wiring of the hash-prefix filters: own ID, cache file, storage and URL each (shared with C11-R11)", "C13-RC": "class rules (error chains, shadowed results, character classes, crossed arguments, pool constructors, array pools, loop completeness, loop-carried buffers, replacing setters, complete clones, Grow arithmetic, pooled-buffer escape, sorted searches, fresh decode targets, per-iteration objects, whole-message copies, codec guards) over the packages this property rests on", "C13-R13": "loadIndex only sorts the decoded entries; none is removed before validation", "C13-R12": "in-place list refresh: engine swap and cache clear under one write lock; same-typed arguments (acceptStale vs cache switches) are not crossed", "C13-R11": "the periodic refresh worker: the loop ends only on shutdown, refreshes on every uninterrupted tick, survives a failed refresh; shutdown refresh exactly when configured; constructor field map", "C13-R9": "an index key is converted to filter.ID only where the same field is validated by filter.NewID in the package", "C13-R10": "components with RefreshInitial are started through it in package cmd, never through their periodic Refresh", "C13-R1": "download / replace protocol tables", "C13-R2": "who may mutate files",
 				"C13-R3": "commit only after success", "C13-R4": "invalid index entries skipped, not aborting",
 				"C13-R7": "exact HTTP status check; only the size-limited reader that fails at the limit is used on a list's path",
 				"C13-R6": "blocked-service index: any invalid entry rejects the whole update",
@@ -243,6 +244,9 @@ func runC13(c *an.Ctx) {
 	c13IndexDecode(c)
 	c.Floor("C13-R16", 4)
 	c13AcceptedBeforeCommit(c)
+	if n := c13StaleFlags(c, "C13-R17"); n < 4 {
+		c.Und("C13-R17", "stale-copy flags of the refreshes", token.NoPos, "only %d refresh calls with a constant acceptStale found (expected the storage and the hash-prefix filters, start-up and periodic)", n)
+	}
 	// ---- R10: the storage (and every other component with a RefreshInitial) is started from what is cached
 	if n := sharedInitialRefresh(c, "C13-R10"); n < 4 {
 		c.Und("C13-R10", "start-up refreshes", token.NoPos, "only %d RefreshInitial calls found in package cmd (expected the rule-list storage and the three hash-prefix filters)", n)
@@ -1290,4 +1294,50 @@ func c13TextRejections(fn *ssa.Function, call *ssa.Call) (out []ssa.CallInstruct
 		})
 	}
 	return out
+}
+
+// c13StaleFlags: a component's start-up refresh accepts the copies on disk
+// whatever their age (acceptStale == true), its periodic refresh does not
+// (false).  With false at start-up a list whose server is down disappears,
+// although a complete copy is on disk, and an unreachable index keeps the
+// process from starting; with true in the periodic refresh nothing is ever
+// downloaded again.  Every call of a method named refresh / Refresh that takes
+// a constant bool, made from a method named RefreshInitial or Refresh, is examined.
+func c13StaleFlags(c *an.Ctx, rule string) (examined int) {
+	for _, fn := range c.AllFns {
+		if fn.Blocks == nil || c.IsTestFile(fn.Pos()) || !c.Prog.InRepo(fn) || !strings.HasPrefix(an.FnKey(fn), "filter/") {
+			continue
+		}
+		name := fn.Name()
+		if name != "RefreshInitial" && name != "Refresh" {
+			continue
+		}
+		for _, call := range an.Calls(fn) {
+			callee := an.StaticCallee(call)
+			if callee == nil || callee.Name() != "refresh" && callee.Name() != "Refresh" {
+				continue
+			}
+			args := call.Common().Args
+			var flag *ssa.Const
+			for i, a := range args {
+				if k, ok := a.(*ssa.Const); ok && isBasicKind(k.Type(), types.Bool) && i < len(callee.Params) && strings.Contains(strings.ToLower(callee.Params[i].Name()), "stale") {
+					flag = k
+				}
+			}
+			if flag == nil {
+				continue
+			}
+			examined++
+			c.Analysed(an.FnKey(fn))
+			want := name == "RefreshInitial"
+			got := constant.BoolVal(flag.Value)
+			c.Check(got == want, rule, fmt.Sprintf("%s passes acceptStale=%v to %s", an.FnKey(fn), want, an.Short(an.FnKey(callee))), call.Pos(),
+				"the start-up refresh accepts the copies on disk whatever their age, the periodic one does not",
+				fmt.Sprintf("acceptStale is %v here: %s", got, map[bool]string{
+					true:  "the periodic refresh never downloads anything again once a cache file exists",
+					false: "at start-up a list whose server is down is dropped although a complete copy is on disk, and an unreachable index keeps the process from starting",
+				}[got]))
+		}
+	}
+	return examined
 }
